@@ -22,7 +22,7 @@ def main():
         runner = f"/venv/bin/python {demo}" if "def test_" not in demo.read_text() or "__main__" in demo.read_text() else f"/venv/bin/python -m pytest -q -p no:cacheprovider {demo}"
         try:
             rc0, _ = sh(runner, cwd=wt, env=env, timeout=900)
-            rca, out = sh(f"git apply {d}/patch.diff", cwd=wt)
+            rca, out = sh(f"git apply {d}/patch.diff || git apply -3 {d}/patch.diff", cwd=wt)
             if rca != 0:
                 print(d.name, "PATCH DOES NOT APPLY", out[-300:]); continue
             rc1, _ = sh(runner, cwd=wt, env=env, timeout=900)
